@@ -263,7 +263,8 @@ class Domain:
         """Transforms a given point density to a number of points, since
         all methods from PyTorch only work with a given number.
         """
-        volume = self.volume(params)
+        # a volume set by the user as a plain number is a 0-d tensor
+        volume = torch.atleast_1d(self.volume(params))
         if len(volume) > 1:
             raise ValueError(
                 f"""Sampling with a density is only possible for one
